@@ -134,6 +134,14 @@ def gt_spellings(t, frac, rng, full=False, tzs=(0,)):
             add("%s%02d%s" % (ymdh, mi, suf), "%s/min" % zform, tz)
             if mi == 0:
                 add("%s%s" % (ymdh, suf), "%s/hour" % zform, tz)
+        # X.680 46.2: a fraction may also follow the hour or the minute (asn_GT2time_frac reads one after the seconds only)
+        if frac == "":
+            hf = {1800: "5", 900: "25", 2700: "75", 360: "1", 36: "01"}.get(mi * 60 + s)
+            if hf:
+                add("%s%s%s%s" % (ymdh, rng.choice(".,"), hf, suf), "%s/hourfrac" % zform, tz)
+            mf = {30: "5", 15: "25", 45: "75", 6: "1", 3: "05"}.get(s)
+            if mf:
+                add("%s%02d%s%s%s" % (ymdh, mi, rng.choice(".,"), mf, suf), "%s/minfrac" % zform, tz)
         # second 60 of the minute before: timegm carries it
         b1 = body(off - 1)
         if s == 0 and b1 is not None and b1[2] == 59 and (full or rng.chance(1, 3)):
@@ -200,6 +208,8 @@ def leaf_text(lf, syn, mode):
     tree: what the unchanged tree does (only GeneralizedTime_encode_der canonicalises; it fails on t = -1)"""
     if mode == "oracle":
         return lf["canon"]
+    if mode == "tree" and syn in ("der", "cxer") and lf["form"].endswith(("/hourfrac", "/minfrac")) and (lf["kind"] == "gt"):
+        raise EncFail("C06-gt-fraction-of-hour-minute")      # asn_GT2time_frac: EINVAL
     if mode == "tree" and lf["kind"] == "gt" and syn == "der":
         if lf["t"] == -1:
             raise EncFail("C17-time-minus-one")
@@ -344,6 +354,8 @@ def time_findings(tn, v, syn):
     ty = TYPES[tn]
     ls = leaves(ty, v)
     ids = []
+    if syn in ("der", "cxer") and any(l["form"].endswith(("/hourfrac", "/minfrac")) for l in ls):
+        ids.append("C06-gt-fraction-of-hour-minute")
     if (syn == "der" and any(l["kind"] == "gt" and l["t"] == -1 for l in ls)) or (syn == "cxer" and any(l["t"] == -1 for l in ls)):
         ids.append("C17-time-minus-one")
     if syn == "der" and any(l["kind"] == "ut" and l["text"] != l["canon"] for l in ls):
@@ -368,6 +380,7 @@ GT_DIRECTED = [
     (T(2026, 1, 1, 12, 0, 0), ""),            # the instant of seeded/C06-7: minutes and seconds may be omitted
     (T(2026, 1, 1, 12, 30, 0), ""),           # seconds may be omitted
     (T(2026, 1, 1, 12, 30, 45), ""),
+    (T(2026, 1, 1, 12, 15, 0), ""), (T(2026, 1, 1, 12, 6, 30), ""),   # .25 h; .5 min
     (T(2026, 1, 1, 12, 0, 0), "5"),
     (T(2026, 1, 1, 0, 0, 0), "123456789"),    # nine digits
     (T(2026, 1, 1, 0, 0, 0), "000000001"),
